@@ -10,7 +10,7 @@ ENTS = ["&amp;", "&lt;", "&quot;", "&copy;", "&#35;", "&#x22;", "&#X41;", "&#0;"
         "&#12345678;", "&#x1234567;", "&amp", "&x;", "&#;", "&#x;", "&MadeUpEntity;", "&#xFFFF;", "&#x10FFFF;", "&#x110000;", "&#65;", "&#9;"]
 URLS = ["/url", "http://example.com/a?b=c&d", "foo%20bar", "javascript:alert(1)", "JaVaScRiPt:x", "data:image/png;base64,AA",
         "data:text/html,x", "vbscript:x", "file:///etc", "#frag", "<a b>", "/a(b)c", "/a\\)b", "mailto:x@y.z", "ä/ö", "a b",
-        "(x)", "\\&amp;", "&#106;avascript:x", "java&#x73;cript:x", "%6Aavascript:x", "ftp://x", "//host", ""]
+        "(x)", "\\&amp;", "&#106;avascript:x", "java&#x73;cript:x", "%6Aavascript:x", "ftp://x", "//host", "", "/p%a", "x%", "%", "/%e4%b", "a%zz", "/50%2", "%4"]
 TITLES = ['"t"', "'t'", "(t)", '"a \\" b"', "'&quot;'", '"multi\nline"', "(a\\)b)", '""', '"&#65;"']
 
 
